@@ -77,10 +77,17 @@ def run_docs(payload):
     want_merge = payload["common"].get("merge", False) if payload.get("common") else False
     res = []
     for it in payload["items"]:
-        text = it["text"]
-        o = {"text": _cp(text), "tok": it.get("tok", "aho"), "raised": "", "cites": [], "merges": []}
+        o = {"text": [], "tok": it.get("tok", "aho"), "raised": "", "cites": [], "merges": []}
         try:
-            cs = extract(text, it.get("tok", "aho"), remove_ambiguous=it.get("ra", False))
+            if "markup" in it:                   # markup mode: offsets refer to the cleaned text
+                from eyecite import clean_text
+                text = clean_text(it["markup"], it["steps"])
+                o["text"] = _cp(text)
+                cs = extract(None, it.get("tok", "aho"), markup=it["markup"], steps=it["steps"], remove_ambiguous=it.get("ra", False))
+            else:
+                text = it["text"]
+                o["text"] = _cp(text)
+                cs = extract(text, it.get("tok", "aho"), remove_ambiguous=it.get("ra", False))
             o["cites"] = [proj(c, i + 1) for i, c in enumerate(cs)]
             if want_merge:
                 ids = {id(c): i + 1 for i, c in enumerate(cs)}
@@ -325,10 +332,10 @@ def run_offsets(payload):
             if "markup" in it:
                 from eyecite import clean_text
                 plain = clean_text(it["markup"], it["steps"])
-                cs = extract(None, it.get("tok", "aho"), markup=it["markup"], steps=it["steps"])
+                cs = extract(None, it.get("tok", "aho"), markup=it["markup"], steps=it["steps"], remove_ambiguous=it.get("ra", False))
             else:
                 plain = it["text"]
-                cs = extract(plain, it.get("tok", "aho"))
+                cs = extract(plain, it.get("tok", "aho"), remove_ambiguous=it.get("ra", False))
             o["text"] = _cp(plain)
             ps = [proj(c, i + 1) for i, c in enumerate(cs)]
             ws = witnesses(plain, ps)
@@ -630,7 +637,7 @@ def run_forms(payload):
         text = it["text"]
         o = {"raised": "", "obs": [], "nrefs": 0, "ties": False}
         try:
-            cs = extract(text, "aho")
+            cs = extract(text, "aho", remove_ambiguous=it.get("ra", False))
             for c in cs:
                 if isinstance(c, ReferenceCitation):
                     o["nrefs"] += 1
